@@ -69,6 +69,13 @@ def evaluate(n, env, width=32, resolve=None, depth=0):
     mask = (1 << width) - 1
     if n.v is not None and n.k not in ("MemberExpr", "DeclRefExpr", "ArraySubscriptExpr"):
         return n.v
+    if n.k == "IntegerLiteral":
+        # literals beyond int64 (UINT64_MAX) carry no evaluated value in the facts: take the spelling
+        from facts import unparse as _up
+        try:
+            return int(_up(n).rstrip("uUlL"), 0)
+        except ValueError:
+            pass
     if n.k in ("MemberExpr", "DeclRefExpr", "ArraySubscriptExpr"):
         p = key_of(n)
         if p in env:
